@@ -317,3 +317,19 @@ Fixpoint decode_items (ks : list kind) (buf extra : list N) : option (list item 
       | _ => None
       end
   end.
+
+(* the Marshal functions called one after the other on one buffer of [room]
+   bytes (buf = buf[n:] after every call); None when one of them fails *)
+Fixpoint marshal_items (items : list item) (room : nat) : option (list N) :=
+  match items with
+  | [] => Some []
+  | i :: t =>
+      match marshal_item i room with
+      | (WOk, bs) =>
+          match marshal_items t (room - length bs) with
+          | Some r => Some (bs ++ r)
+          | None => None
+          end
+      | _ => None
+      end
+  end.
